@@ -2,6 +2,7 @@ package props
 
 import (
 	"github.com/celestiaorg/go-header/store"
+	hsync "github.com/celestiaorg/go-header/sync"
 
 	"verifsim/core"
 )
@@ -11,7 +12,11 @@ import (
 func installHooks(s *core.Sim, on bool) {
 	if s == nil || !on {
 		store.SimHook.Yield = nil
+		hsync.SimHook.Yield, hsync.SimHook.Acquire, hsync.SimHook.Release = nil, nil, nil
 		return
 	}
 	store.SimHook.Yield = s.Yield
+	hsync.SimHook.Yield = s.Yield
+	hsync.SimHook.Acquire = s.Acquire
+	hsync.SimHook.Release = s.Release
 }
